@@ -41,7 +41,21 @@ def main():
     if rc:
         raise SystemExit(out)
     meta = {"seeded_id": sid, "breaks_property": props[0], "checks_run": {}, "confirmed": {}}
+    old_meta_path = os.path.join(VERIF, "seeded", sid, "meta.json")
+    skip_demo = os.environ.get("SKIP_DEMO") == "1" and os.path.exists(old_meta_path)
     try:
+        if skip_demo:
+            # re-evaluation of a change that was confirmed before: only the checks are run again
+            om = json.load(open(old_meta_path))
+            meta["confirmed"] = om.get("confirmed", {})
+            meta["breaks_property"] = om.get("breaks_property", props[0])
+            for k in ("demo_output_with_change", "existing_tests_cmd"):
+                if k in om:
+                    meta[k] = om[k]
+            rc, out = sh(["git", "-C", wt, "apply", os.path.abspath(os.path.join(src, "patch.diff"))])
+            if rc:
+                raise SystemExit("patch does not apply:\n" + out)
+            raise StopIteration
         demo_path = os.path.join(wt, pkgdir, "zz_seeded_demo_test.go")
         open(demo_path, "w").write(demo)
         names = re.findall(r"^func (Test\w+)\(", demo, re.M)
@@ -73,6 +87,13 @@ def main():
             meta["existing_tests_cmd"] = "cd %s && go test -count=1 -vet=off %s (%.0f s)" % (os.path.relpath(modroot, wt), " ".join(target), time.time() - t0)
             if rc:
                 print(out[-3000:])
+    except StopIteration:
+        pass
+    except BaseException:
+        sh(["git", "-C", "/repo", "worktree", "remove", "--force", wt])
+        shutil.rmtree(wt, ignore_errors=True)
+        raise
+    try:
         for prop in props:
             env = dict(os.environ, VERIF_REPO=wt)
             t0 = time.time()
@@ -94,6 +115,11 @@ def main():
         if not same:
             shutil.copy(os.path.join(src, "notes.md"), os.path.join(dest, "notes.md"))
         meta["needs_in_order_to_manifest"] = "see notes.md (written by the independent sub-agent that produced the change)"
+    if os.path.exists(old_meta_path):
+        om = json.load(open(old_meta_path))
+        for k in ("needs_in_order_to_manifest", "what_was_run"):
+            if k in om and len(str(om[k])) > 100:
+                meta[k] = om[k]
     old = {}
     mp = os.path.join(dest, "meta.json")
     if os.path.exists(mp):
